@@ -24,13 +24,14 @@ RULE = ("case = one visit of a knowledge state K by a long-lived real game objec
         "upper bytes) with the table of a FRESH object given K and the same registered computer; plus compute twice = "
         "compute once; plus env-level step(a);unstep(a) restoring table, reward and observation bytes at every "
         "reachable state (n=3: all; n=4,5 sampled). All six registered computers; games superadditive, SAM and "
-        "arbitrary (non-superadditive). Walks: every lattice edge in both directions (n=3; n=4 for cheap computers), "
+        "arbitrary (non-superadditive); the same knowledge set recomputed on one object after its values moved by a factor "
+        "1 + 2^-18..2^-30 (bulk set or overwrite). Walks: every lattice edge in both directions (n=3; n=4 for cheap computers), "
         "random walks above (n up to 7); a sample of visits (12 quick / 150 per shard thorough, 30 % of the n=7 visits) is also "
         "compared with the table computed in a FRESH interpreter, which process-global memos cannot have polluted. Distinct = hash(values, K, computer, predecessor state); non-trivial = the table changed "
         "across the step that led to the visit.")
 SHARDS = {"quick": 4, "thorough": 16}
 BUDGET = {"quick": 45, "thorough": 420}
-REQUIRED = ["visits_compared", "idempotence_checks", "env_step_unstep_pairs", "euler_walks", "dirty_histories", "fresh_process_tables_compared"]
+REQUIRED = ["nearby_value_recomputations", "visits_compared", "idempotence_checks", "env_step_unstep_pairs", "euler_walks", "dirty_histories", "fresh_process_tables_compared"]
 
 GAPS = {"exploitability": compute_exploitability, "l1_norm": l1_norm, "l2_norm": l2_norm, "linf_norm": linf_norm}
 
@@ -127,6 +128,38 @@ def walk_case(ctx, case) -> None:
         ctx.violation("raised-during-history", f"{type(exc).__name__}: {exc} (n={n}, computer={comp})", c)
 
 
+def nearby_case(ctx, case) -> None:
+    """One long-lived object, the SAME knowledge set, but the known values replaced by those of a game that differs in the
+    twentieth binary digit (every value times 1 + 2^-k, exact on the integer families): the bounds must be those of the new
+    values - "current knowledge" includes the values, however close they are to the ones computed last."""
+    n, values, comp, K = case["n"], case["values"], case["computer"], sorted(case["K"])
+    game = sut.new_game(n, BOUNDS[comp])
+    try:
+        sut.set_knowledge(game, values, K)
+        game.compute_bounds()
+        for step, (k, how) in enumerate(case["moves"]):
+            f = 1.0 + 2.0 ** -k
+            v2 = [float(x) * f for x in values]
+            if how == "bulk":
+                sut.set_knowledge(game, v2, K)
+            else:
+                for m in K:
+                    if m:
+                        game.set_value(v2[m], Coalition(m))
+            game.compute_bounds()
+            got = sut.table_bytes(game)
+            want = canonical({}, n, v2, comp, K)
+            ctx.count("nearby_value_recomputations")
+            changed = want != canonical({}, n, values, comp, K)
+            ctx.case((tuple(values), tuple(K), comp, k, how), changed)
+            if got != want:
+                ctx.violation("history-dependent-bounds", f"{comp}: same knowledge set, values scaled by 1+2^-{k} through "
+                              f"{how}: table differs from a fresh object's after move {step}", case)
+                return
+    except Exception as exc:
+        ctx.violation("raised-during-history", f"{type(exc).__name__}: {exc} (nearby values)", case)
+
+
 def euler_ops(n, rng):
     ops = [["set_known", sorted(minimal_masks(n))], ["compute"]]
     cur = set()
@@ -217,6 +250,13 @@ def run(ctx) -> None:
         walk_case(ctx, {"n": 4, "family": "bulk_set_after_compute", "values": v0, "computer": comp0, "kind": "walk",
                         "ops": [["set_known", sorted(minimal_masks(4)) + sorted(ex0[:2])], ["compute"], ["bulk_set", sorted(ex0[1:5])], ["compute"],
                                 ["bulk_set", sorted(ex0[4:8])], ["compute"], ["compute"]]})
+    # guaranteed minimum: the same knowledge set with values that moved in the 20th-30th binary digit
+    for comp0 in ("superadditive", "superadditive_cached", "sam_apx_1", "sam_apx_10"):
+        for n0 in (3, 4):
+            v0 = gen.sam_game(rng, n0, "sam_int")[0] if comp0.startswith("sam") else gen.sa_game(rng, n0, rng.choice(["int", "int_neg"]))[0]
+            nearby_case(ctx, {"kind": "nearby", "n": n0, "family": "nearby_values", "values": v0, "computer": comp0,
+                              "K": gen.random_knowledge_set(rng, n0),
+                              "moves": [[rng.choice([18, 20, 24, 30]), rng.choice(["bulk", "overwrite"])] for _ in range(3)]})
     for comp in comps:
         fam, values = game_for(rng, 3, comp)
         walk_case(ctx, {"n": 3, "family": fam, "values": values, "computer": comp, "ops": euler_ops(3, rng), "kind": "euler"})
@@ -284,7 +324,9 @@ def replay(ctx, case) -> None:
         from ..contracts_suite import run_repo_tests
         run_repo_tests(ctx, case["files"], case["contracts"])
         return
-    if "actions" in case:
+    if case.get("kind") == "nearby":
+        nearby_case(ctx, case)
+    elif "actions" in case:
         env_case(ctx, case)
     else:
         walk_case(ctx, case)
